@@ -85,9 +85,12 @@ void Grammar::calculateFirstSets() {
             continue;
           }
           max_used_terminal = std::max(symbol.index, max_used_terminal);
-          if (!first_sets.contains(symbol)) {
+          // FIRST(terminal) = {terminal}, also when an (empty) entry already
+          // exists because first() was asked about this terminal earlier
+          std::set<Symbol> &own = first_sets[symbol];
+          if (!own.contains(symbol)) {
             changed = true;
-            first_sets.insert(std::make_pair(symbol, std::set<Symbol>{symbol}));
+            own.insert(symbol);
           }
         }
       }
